@@ -42,16 +42,17 @@ class C02(Prop):
                    "dict keys are str; floats inside checksums / additional_variants are opaque tokens",
                    "image objects are not mutated between Images.add and dumps"]
     partial = {
-        "C02_readback_partial": "hypotheses Uniq (identity collisions are written but refused on reload: F11, C02_F11_witness) and ProperInts "
-                                "(a bool in an int attribute comes back as 1/0: F22, C02_bool_int_witness); both excluded regions are real "
-                                "defects with decide'd witnesses. C02_fixpoint / C02_bytes add DistinctPaths (the quantifier's own condition) and, "
-                                "for C02_bytes, json.load(printed text) = document as the explicit hypothesis hjson",
+        "C02_readback_partial": "hypothesis Uniq (identity collisions are written but refused on reload: F11, C02_F11_witness, a real defect with a "
+                                "decide'd witness). The former hypothesis ProperInts (F22: a bool in an int attribute came back as 1/0) is gone: "
+                                "_assert_type refuses a bool where bool is not listed (Gen.assertTypeBoolStrict, translated from the method body), so "
+                                "ProperInts follows from validate = ok (C02_valid_ints_proper, C02_bool_int_refused). C02_fixpoint / C02_bytes add "
+                                "DistinctPaths (the quantifier's own condition) and, for C02_bytes, json.load(printed text) = document as the explicit hypothesis hjson",
     }
 
     # ------------------------------------------------------------------ cases
     def cases(self, rng, tier, budget):
         yield {"op": "cycle", "args": {"spec": {"version": "0.0", "compose": F.gen_compose(rng), "pool": [], "adds": []}}}
-        n_f11 = n_f19 = 0                                  # the two known-finding streams are capped (they count as failures)
+        n_f11 = n_f19 = 0                                  # the known-finding stream F11 is capped (it counts as failures); so is the bool stream
         for n in range(budget):
             r = rng.random()
             if r >= 0.86 and r < 0.90 and n_f11 >= 10:
@@ -72,11 +73,11 @@ class C02(Prop):
                 spec["pool"].append(twin)
                 spec["adds"].append([rng.choice([a[0] for a in spec["adds"]]), "x86_64", len(spec["pool"]) - 1])
                 n_f11 += 1
-            elif r < 0.92:                                   # bool where an int is documented
-                spec = F.gen(rng, tier)
+            elif r < 0.92:                                   # bool where an int is documented: refused on dump (TypeError) since the F22 repair;
+                spec = F.gen(rng, tier)                      # with the bare isinstance loop it is written as true/false and read back as 1/0
                 if not spec["pool"]:
                     continue
-                img = rng.choice(spec["pool"]); img[rng.choice(F.INT_FIELDS)] = True
+                img = rng.choice(spec["pool"]); img[rng.choice(F.INT_FIELDS)] = (n % 4 != 0)
                 n_f19 += 1
                 F.make_unique(spec["pool"]) if not isinstance(img["disc_number"], bool) else None
             else:                                            # the library refuses to write: one attribute out of its domain
@@ -92,8 +93,7 @@ class C02(Prop):
                     # falsy values of every type for every attribute, round-robin (legal ones must round-trip, the others be refused)
                     f = F.rr(F.FIELDS)
                     val = F.rr([None, False, 0, {"$float": "0.0"}, "", [], {}, {"$other": False}])
-                    if f in F.INT_FIELDS and isinstance(val, bool):
-                        val = 0                              # bool in an int attribute is the F22 stream
+                    # (False in an int attribute: refused with TypeError like every other wrong type - F22 repaired)
                 if f == "additional_variants":
                     img["unified"] = False
                 img[f] = val
@@ -144,6 +144,8 @@ class C02(Prop):
                                 sv[k] = r.pop(k)
                     if rng.random() < 0.2:
                         r["mtime"] = str(r["mtime"]); r["bootable"] = int(r["bootable"])     # coerced by the reader
+                    if rng.random() < 0.15:
+                        r["disc_count"] = True                  # JSON `true` in an int attribute: the reader's int() makes it 1 (then valid)
                 # the quantifier is over manifests whose images are distinguishable (identity unique since 1.1): an absent key
                 # is read as its default, so records whose DEFAULTED identity would coincide with another image's (with other
                 # checksums) get their explicit keys back, until the document is as distinguishable as the spec was
@@ -468,6 +470,6 @@ PROP = C02()
 
 MANIFEST = dict(
     technique="Lean 4 proof over an executable model of images.py (serialize / deserialize / add mirrored statement by statement, validators and version gates regenerated from the source) + byte-exact differential check of dumps/loads against the real library + round-trip oracle on the real library",
-    text="Theorem C02_readback_partial: for every manifest (any number of variants, arches, images per cell, objects filed in several cells) whose compose section and images validate (generated rule lists), whose cells are keyed by admissible arches, whose integer attributes are ints and which satisfies identity uniqueness, serialize succeeds, deserialize of the written document succeeds, and the manifest read holds exactly the same multiset of (variant, arch, 15-attribute record) filings (C02_cells per cell, C02_all overall), compose section in normal form (C02_compose_norm_id: identity when a label is set or final is False), current version; C02_cycle_closed: the result satisfies the hypotheses again. C02_image_roundtrip / C02_compose_roundtrip are the field-level statements. C02_fixpoint: with distinct paths inside every cell the re-read manifest is written to a document with the same canonical form, hence the same bytes (the image table is a function of the multiset of filings: toPy_canon_perm); C02_bytes: dumps -> loads -> dumps returns the identical text, with json.load o print = id as explicit hypothesis. C02_empty_cells_not_written / C02_document_of_filings: cells may be empty sets and variants may lack arches (images removed through the public containers); the writer emits a key exactly for variants / (variant, arch) pairs that have a filing and never an empty list, and the document depends on the manifest only through its filings. C02_reload_canon (Img.reload_canon): the reader does not depend on the key order of the written document - deserialize(doc) and deserialize(key-sorted doc) both succeed and give the same content (Img.Same); C02_bytes_parsed: dumps -> modelled CPython json parser -> loads -> dumps returns the identical text from hypotheses on the OBJECT only (validators pass, containers hold JSON values, integers within the digit limit), no hypothesis about the library model left. Hypotheses are necessary: C02_F11_witness, C02_bool_int_witness (decide).",
+    text="Theorem C02_readback_partial: for every manifest (any number of variants, arches, images per cell, objects filed in several cells) whose compose section and images validate (generated rule lists), whose cells are keyed by admissible arches and which satisfies identity uniqueness, serialize succeeds, deserialize of the written document succeeds, and the manifest read holds exactly the same multiset of (variant, arch, 15-attribute record) filings (C02_cells per cell, C02_all overall), compose section in normal form (C02_compose_norm_id: identity when a label is set or final is False), current version; C02_cycle_closed: the result satisfies the hypotheses again. C02_image_roundtrip / C02_compose_roundtrip are the field-level statements. C02_fixpoint: with distinct paths inside every cell the re-read manifest is written to a document with the same canonical form, hence the same bytes (the image table is a function of the multiset of filings: toPy_canon_perm); C02_bytes: dumps -> loads -> dumps returns the identical text, with json.load o print = id as explicit hypothesis. C02_empty_cells_not_written / C02_document_of_filings: cells may be empty sets and variants may lack arches (images removed through the public containers); the writer emits a key exactly for variants / (variant, arch) pairs that have a filing and never an empty list, and the document depends on the manifest only through its filings. C02_reload_canon (Img.reload_canon): the reader does not depend on the key order of the written document - deserialize(doc) and deserialize(key-sorted doc) both succeed and give the same content (Img.Same); C02_bytes_parsed: dumps -> modelled CPython json parser -> loads -> dumps returns the identical text from hypotheses on the OBJECT only (validators pass, containers hold JSON values, integers within the digit limit), no hypothesis about the library model left. The hypothesis Uniq is necessary: C02_F11_witness (decide). Integer attributes need no hypothesis: _assert_type accepts a bool only where bool is listed (generated flag Gen.assertTypeBoolStrict read from the method body), so a validated image holds ints (C02_valid_ints_proper) and a bool is refused with TypeError (C02_bool_int_refused, C02_bool_int_refused_witness; F22 repaired).",
     note="JSON parser not modelled (document-level statement; parser exercised by every generated case). F11: a manifest with an identity collision built under a pre-1.1 header is written but refused on reload (known finding).",
     ref="7/C02")
